@@ -387,7 +387,7 @@ Section SortCorrect.
      segment, returns, has only rearranged the segment, and leaves walls such that everything left of the left wall
      is <= pivot and everything right of the right wall is > pivot.  L bounds the segment lengths it is asked for. *)
   Definition strided_partition_post (L : N) : Prop :=
-    forall a b len p, 0 < len -> len <= L -> b + len <= bound ->
+    forall a b len p, 0 < len -> len <= L -> b + len <= bound -> p_small P len = false ->
       exists a2 lw rw,
         walls V leb dflt bound P true (S (N.to_nat len)) a b (p_thresh P len) p 0 (len - 1) = Some (a2, lw, rw) /\
         SegRel a a2 b len /\ Iinv a2 b p len lw rw.
@@ -396,7 +396,7 @@ Section SortCorrect.
   Lemma partition_post_not_entered : forall L,
     (forall l, 0 < l -> l <= L -> l - 1 <= p_thresh P l) -> strided_partition_post L.
   Proof.
-    intros L H a b len p Hl HL Hb. exists a, 0, (len - 1).
+    intros L H a b len p Hl HL Hb _. exists a, 0, (len - 1).
     split; [|split; [apply SegRel_refl|]].
     - simpl. rewrite N.sub_0_r.
       destruct (N.ltb_spec (p_thresh P len) (len - 1)) as [X|X]; [specialize (H len Hl HL); lia|].
@@ -406,25 +406,33 @@ Section SortCorrect.
 
   (* NAMED HYPOTHESIS, one level down: ONE pass of the strided partitioner on a sub-array of length <= L returns, only
      rearranges that sub-array, and its walls (l, r) have everything below l (up to r) <= pivot, everything above r > pivot *)
+  (* the pass is only ever run on sub-arrays that hold at least one chunk per thread *)
+  Definition PassWF (l : N) : Prop :=
+    0 < p_chunk P /\ 0 < p_nthreads P l /\ p_chunk P * p_nthreads P l <= l.
+  (* parameter well-formedness: above the cutoff, every gap that exceeds the threshold is such a sub-array *)
+  Definition ParamsWF (L : N) : Prop :=
+    forall len l, 0 < len -> len <= L -> p_small P len = false -> p_thresh P len + 1 < l -> l <= len -> PassWF l.
+
   Definition strided_pass_post (L : N) : Prop :=
-    forall a b' len' p, 0 < len' -> len' <= L -> b' + len' <= bound ->
+    forall a b' len' p, 0 < len' -> len' <= L -> b' + len' <= bound -> PassWF len' ->
       exists a2 l r, partitioner V leb dflt bound P a b' len' p = Some (a2, l, r) /\
                      SegRel a a2 b' len' /\ r < len' /\
                      (forall i, i < l -> i <= r -> LE a2 b' p i) /\ (forall i, r < i -> i < len' -> GT a2 b' p i).
 
   (* the partition LOOP (with its no-progress exit) is proved from the single pass: invariant Iinv, measure = the gap *)
   Lemma walls_spec : forall L b len p thresh, strided_pass_post L -> len <= L -> b + len <= bound ->
+    (forall l, thresh + 1 < l -> l <= len -> PassWF l) ->
     forall wfuel a lw rw, Iinv a b p len lw rw -> (N.to_nat (rw - lw) < wfuel)%nat ->
     exists a2 lw2 rw2, walls V leb dflt bound P true wfuel a b thresh p lw rw = Some (a2, lw2, rw2) /\
                        SegRel a a2 b len /\ Iinv a2 b p len lw2 rw2.
   Proof.
-    intros L b len p thresh Hpass HL Hb. induction wfuel as [|f IH]; intros a lw rw [I1 [I2 I3]] Hf; [lia|].
+    intros L b len p thresh Hpass HL Hb Hwf. induction wfuel as [|f IH]; intros a lw rw [I1 [I2 I3]] Hf; [lia|].
     simpl.
     destruct (N.ltb_spec lw rw) as [Hlt|Hge]; simpl;
       [|exists a, lw, rw; split; [reflexivity|split; [apply SegRel_refl|repeat split; assumption]]].
     destruct (N.ltb_spec thresh (rw - lw)) as [Hth|Hth]; simpl;
       [|exists a, lw, rw; split; [reflexivity|split; [apply SegRel_refl|repeat split; assumption]]].
-    destruct (Hpass a (b + lw) (rw - lw + 1) p) as [a0 [l0 [r0 [E0 [S0 [R0 [F1 F2]]]]]]]; [lia|lia|lia|].
+    destruct (Hpass a (b + lw) (rw - lw + 1) p) as [a0 [l0 [r0 [E0 [S0 [R0 [F1 F2]]]]]]]; [lia|lia|lia|apply Hwf; lia|].
     rewrite E0.
     assert (S0' : SegRel a a0 b len) by (eapply SegRel_widen; [| |exact S0]; lia).
     assert (Inv0 : Iinv a0 b p len (l0 + lw) (r0 + lw)).
@@ -443,10 +451,11 @@ Section SortCorrect.
     exists a2, lw2, rw2. split; [exact E2|]. split; [|exact I2']. eapply SegRel_trans; [exact S0'|exact S2].
   Qed.
 
-  Lemma pass_to_partition : forall L, strided_pass_post L -> strided_partition_post L.
+  Lemma pass_to_partition : forall L, ParamsWF L -> strided_pass_post L -> strided_partition_post L.
   Proof.
-    intros L Hpass a b len p Hl HL Hb.
-    apply (walls_spec L b len p (p_thresh P len) Hpass HL Hb (S (N.to_nat len)) a 0 (len - 1)); [|lia].
+    intros L Hwf Hpass a b len p Hl HL Hb Hs.
+    apply (walls_spec L b len p (p_thresh P len) Hpass HL Hb (fun l H1 H2 => Hwf len l Hl HL Hs H1 H2)
+                      (S (N.to_nat len)) a 0 (len - 1)); [|lia].
     split; [lia|]. split; intros; lia.
   Qed.
 
@@ -457,14 +466,14 @@ Section SortCorrect.
               (pd = true -> forall i, rw <= i -> i < len -> eqv (aget a' (b + i)) p = true).
 
   Lemma node_spec : forall L wfuel a b len, strided_partition_post L ->
-    0 < len -> len <= L -> b + len <= bound ->
+    0 < len -> len <= L -> b + len <= bound -> p_small P len = false ->
     exists a' rw pd, qsort_node V leb dflt bound P true true wfuel a b len = Some (a', rw, pd) /\
                      SegRel a a' b len /\ NodePost a' b len rw pd.
   Proof.
-    intros L wfuel a b len Hpart Hl HL Hb. unfold Sort.qsort_node.
+    intros L wfuel a b len Hpart Hl HL Hb Hs. unfold Sort.qsort_node.
     destruct (trimedian_spec a b len Hl Hb) as [a1 [E1 S1]]. rewrite E1.
     set (p := aget a1 (b + len / 2)).
-    destruct (Hpart a1 b len p Hl HL Hb) as [a2 [lw [rw [E2 [S2 I2]]]]]. rewrite E2.
+    destruct (Hpart a1 b len p Hl HL Hb Hs) as [a2 [lw [rw [E2 [S2 I2]]]]]. rewrite E2.
     destruct (fixup_spec a2 b len p lw rw Hb I2) as [a3 [r [E3 [S3 [P1 [P2 P3]]]]]]. rewrite E3.
     assert (Hm : len / 2 < len) by (apply N.div_lt; lia).
     assert (S13 : SegRel a1 a3 b len) by (eapply SegRel_trans; eauto).
@@ -515,10 +524,10 @@ Section SortCorrect.
                SegRel a a' b len /\ SortedSeg a' b len.
   Proof.
     intros L wfuel Hpart. induction fuel as [|f IH]; intros a b len Hl HL Hb Hf; [lia|].
-    simpl. destruct (p_small P len).
+    simpl. destruct (p_small P len) eqn:Es.
     - destruct (N.leb_spec (b + len) bound); [|lia].
       eexists. split; [reflexivity|]. apply base_sort_ok. exact Hb.
-    - destruct (node_spec L wfuel a b len Hpart Hl HL Hb) as [a3 [rw [pd [En [S3 [N1 [N2 [p [N3 [N4 N5]]]]]]]]]].
+    - destruct (node_spec L wfuel a b len Hpart Hl HL Hb Es) as [a3 [rw [pd [En [S3 [N1 [N2 [p [N3 [N4 N5]]]]]]]]]].
       rewrite En.
       (* the left call *)
       assert (Left : exists a4, (if 0 <? rw then qsort_inner_gen true true f wfuel a3 b rw else Some a3) = Some a4 /\
@@ -678,13 +687,13 @@ Qed.
 Theorem qsort_returns_sorted_permutation_pass_inst :
   forall (V : Type) (leb : V -> V -> bool) (dflt : V) (bound : N) bs (P : params) L wfuel,
   OrderOK V leb -> BaseSortOK V leb dflt bound bs ->
-  strided_pass_post V leb dflt bound P L ->
+  ParamsWF P L -> strided_pass_post V leb dflt bound P L ->
   forall a len, 0 < len -> len <= L -> len <= bound ->
   exists a', qsort_inner V leb dflt bound bs P (S (N.to_nat len)) wfuel a 0 len = Some a' /\
              Permutation (to_list V dflt a bound) (to_list V dflt a' bound) /\
              SortedSeg V leb dflt a' 0 len /\ (forall k, len <= k -> aget V dflt a' k = aget V dflt a k).
 Proof.
-  intros V leb dflt bound bs P L wfuel O B Hpass.
+  intros V leb dflt bound bs P L wfuel O B Hwf Hpass.
   apply (qsort_returns_sorted_permutation_partial_inst V leb dflt bound bs P L wfuel O B).
-  apply pass_to_partition. exact Hpass.
+  apply pass_to_partition; assumption.
 Qed.
